@@ -333,14 +333,14 @@ def gen(tier, seed):
     rng = random.Random(f"C07-{seed}")
     cases = corpus()
     cases += abbrev_cases(rng, 0)
-    ntrees, per_tree = (44, 14) if tier == "quick" else (200, 24)
+    ntrees, per_tree = (40, 14) if tier == "quick" else (200, 24)
     maxdepth = 2 if tier == "quick" else 3
     for i in range(ntrees):
         counter, pool = [0], []
         depth = 1 if i % 4 == 0 else (2 if (i % 4 != 3 or maxdepth == 2) else 3)
         tree = gen_class(rng, depth, counter, pool, nfields=1 + (i % 2))
         cases += cases_for_tree(tree, rng, per_tree if depth < 3 else per_tree // 2)
-    cases += cmd_cases(rng, 220 if tier == "quick" else 1500)
+    cases += cmd_cases(rng, 200 if tier == "quick" else 1500)
     return cases
 
 
@@ -956,6 +956,32 @@ def shrink(case):
                 yield dict(case, **{part: case[part][:i] + case[part][i + 1:]})
         return
     toks = case["toks"]
+    used0 = {t.get("dest") for t in toks}
+
+    def prune_all(dc, path):
+        """dc without every leaf and every alternative that no written option refers to (coarse first step)"""
+        leaves = [l for l in dc["leaves"] if path + "." + l[0] in used0]
+        subs = []
+        for sg in dc["subs"]:
+            d = path + "." + sg["f"]
+            keep = [[k, a] for k, a in sg["alts"]
+                    if k == sg["default"] or any(t.get("dest") == d and t.get("key", t.get("v")) == k for t in toks)
+                    or any((t.get("via") or {}).get(d) == k for t in toks)]
+            if not keep:
+                keep = sg["alts"][:1]
+            alts = []
+            for k, a in keep:
+                sub = prune_all(a["dc"], d)
+                alts.append([k, dict(a, dc=sub, ov=[x for x in a["ov"] if x[0] in [l[0] for l in sub["leaves"]]])])
+            subs.append(dict(sg, alts=alts, dkind="key"))
+        return dict(dc, name=dc["name"] + "q", leaves=leaves, subs=subs)
+
+    coarse = prune_all(case["tree"], ROOT)
+    if json.dumps(coarse, sort_keys=True).replace('q"', '"') != json.dumps(case["tree"], sort_keys=True).replace('q"', '"'):
+        yield dict(case, tree=coarse)
+    if len(toks) > 3:
+        yield dict(case, toks=toks[: len(toks) // 2])
+        yield dict(case, toks=toks[len(toks) // 2:])
     for i in range(len(toks)):
         yield dict(case, toks=toks[:i] + toks[i + 1:])
     for i, t in enumerate(toks):
